@@ -212,4 +212,21 @@ PROPS = {
         assumptions=["the codec-construction / struct-field resolution layer is decided by differential testing, not by theorem",
                      "error values are compared as nil / non-nil only (the property says so)"],
     ),
+    "C15": dict(
+        lean_modules=["Enc.Props.C15"],
+        variants=V_DEFAULT, areas=["json.Append", "json.AppendEscape", "json.AppendUnescape", "json.encoder"],
+        allowed_native=["Enc.Lemmas.Json", "Lemmas.Json"],
+        main_theorem="Enc.Props.C15 (Go append on a slice model; Append = prefix ++ render for every capacity and growth policy)",
+        rule="(a) the Lean slice model's value universe (null/bool/int/string/[]byte/failing value/arrays/structs with omitempty, "
+             "`,string`, nil embedded pointer) realised as Go values with reflect: implementation = slice model = prefix ++ render over "
+             "a (prefix length x spare capacity) grid placed around the encoded size; (b) on the real code only: every type-directed "
+             "value of C01 x 8 AppendFlags subsets x {by value, by pointer} x 6 prefix lengths x 10 spare capacities (0, n/2, n-2..n+2, "
+             "2n, n+4096) carved from one backing array with guard bytes: result = prefix ++ Append(nil), error iff error, prefix kept "
+             "on error, no write below len(b) or beyond cap(b); []byte of every length 0..70 and around 256/1024/4096 in six shapes; "
+             "20 failing values (NaN, failing Marshaler/TextMarshaler, invalid RawMessage/Number, unsupported types) at several depths; "
+             "AppendEscape / AppendUnescape",
+        trusted_base=["Append(nil, v, flags) is the reference for (b): C01 ties it to encoding/json"],
+        assumptions=["aliasing inside encodeToString (the string header s := b[i:] is read while b is appended to) is not expressible in "
+                     "the immutable-value model; only the guard-byte differential on the real code covers it"],
+    ),
 }
